@@ -418,7 +418,7 @@ func checkC03Forwarder(p *Prog, r *Report, rFw, rId, rOrd *Rule, top *ssa.Functi
 			if _, isDone := isCtxDone(st.Chan); isDone {
 				continue
 			}
-			if _, ok := resolveCell(st.Chan).(*ssa.MakeChan); ok {
+			if _, ok := stripConv(resolveCell(stripConv(st.Chan, false)), false).(*ssa.MakeChan); ok {
 				dq, dqArm = s, k
 			}
 		}
